@@ -1185,6 +1185,8 @@ impl<'a> TInputProtocol for TBinaryUnsafeInputProtocol<'a> {
         }
 
         loop {
+            #[cfg(pilota_verif)]
+            verif_skip::emit(ttype as u8, self.index, len, &stack);
             match ttype {
                 TType::Bool => {
                     self.index += 1;
@@ -1339,5 +1341,46 @@ impl<'a> TBinaryUnsafeInputProtocol<'a> {
     #[doc(hidden)]
     pub fn verif_cursor(&self) -> (usize, usize, usize) {
         (self.index, self.trans.len(), self.buf.len())
+    }
+}
+
+/// Verification hook (add-only, compiled only with `--cfg pilota_verif`): one event per iteration of
+/// the iterative skipper's loop -- (type handled next, cursor, bytes accounted, pending stack).
+#[cfg(pilota_verif)]
+#[doc(hidden)]
+pub mod verif_skip {
+    use std::cell::RefCell;
+
+    pub type Event = (u8, usize, usize, Vec<(u8, u8, u32)>);
+
+    thread_local! {
+        static LOG: RefCell<Option<Vec<Event>>> = const { RefCell::new(None) };
+    }
+
+    /// start recording on this thread
+    pub fn start() {
+        LOG.with(|l| *l.borrow_mut() = Some(Vec::new()));
+    }
+
+    /// stop recording and return the events
+    pub fn take() -> Vec<Event> {
+        LOG.with(|l| l.borrow_mut().take().unwrap_or_default())
+    }
+
+    #[inline]
+    pub(super) fn emit(ttype: u8, index: usize, len: usize, stack: &[super::SkipData]) {
+        LOG.with(|l| {
+            if let Some(v) = l.borrow_mut().as_mut() {
+                v.push((
+                    ttype,
+                    index,
+                    len,
+                    stack
+                        .iter()
+                        .map(|d| (d.ttype[0] as u8, d.ttype[1] as u8, d.len))
+                        .collect(),
+                ));
+            }
+        });
     }
 }
